@@ -1,6 +1,6 @@
 SPECIFICATION Spec
 CONSTANTS
-  Fuel = 1
+  Fuel = 2
   MaxStmt = 1
   MaxTok = 60
   Imports = TRUE
